@@ -28,6 +28,18 @@ STRING_POOL = ["x", "abc", "a b", "two  spaces", " lead", "trail ", "", "it's", 
                "It\u2019s dry", "the \u201ccore\u201d area", "\u2018single\u2019", "Dry season", "Dry  season", "a b", "a  b", "a\tb", "# c"]
 
 
+# content of quoted strings written over several file lines: blanks, tabs and other white space right before a line break inside the quotes are content
+# (a tool that tidies line ends before parsing changes them), as are blank lines inside the string and blanks at its start and end
+MULTILINE_POOL = ["first line   \nsecond line\t\nthird", "a \nb", "c\t\n", "Slope, \n  in percent", " \n ", "ends in a break\n", "\nstarts with one", "two\n\nbreaks  \n\n  and blanks",
+                  "tab\t\ttab\t\n\tnext", "x \t \ny", "vt\x0b\nff\x0c\nnbsp\xa0\nem\u2003\nend", "no blank before\nthe break", "é \n☃\t\nü", "#  \n# looks like comments \n", "k: v, \n[1, 2] = ( \n",
+                  "only blanks at the very end   ", "one \n" * 12 + "last"]
+
+
+def is_raw_safe(s, q):
+    """can be written between quotes `q` as it is - line breaks and tabs included - and is read back as exactly this text"""
+    return "\\" not in s and q not in s and "\r" not in s
+
+
 def is_ident(s):
     return len(s) > 0 and s[0] in ID_START and all(c in ID_CONT for c in s)
 
@@ -148,11 +160,15 @@ def quote(s, q):
 class Layout(object):
     """random but reproducible layout choices"""
 
-    def __init__(self, rng, newline="\n", wild=True, one_line=False):
+    def __init__(self, rng, newline="\n", wild=True, one_line=False, split_eq=False):
         self.rng = rng
         self.nl = newline
         self.wild = wild
         self.one_line = one_line          # the whole program on one line: blanks vary (when wild), no line break, no comment, commands separated by a blank
+        self.split_eq = split_eq          # every argument's value starts on a later line than `Name =`: a line break, blank lines, a trailing comment or a comment line after the `=`
+
+    def after_eq(self):
+        return self.rng.choice(["", " ", "\t"]) + self.rng.choice(["", "", self.nl, self.nl * 2, "# the value follows", " # c = ( [" + self.nl + "  # more"]) + self.nl + self.rng.choice(["", "    ", "\t"])
 
     def ws(self, allow_nl=False):
         r = self.rng.random()
@@ -177,11 +193,8 @@ class Renderer(object):
 
     def emit(self, text):
         self.out.append(text)
-        nl = self.lay.nl
-        self.line += text.count(nl) if nl != "\n" else text.count("\n")
-        if nl != "\n":
-            # stray \n or \r inside quoted strings never occur (they are escaped)
-            pass
+        # line breaks as the lexer counts them (CRLF is one): a string written raw over several lines holds bare \n whatever the file's line ends are
+        self.line += text.count("\n") + text.count("\r") - text.count("\r\n")
 
     def gap(self, allow_nl=True):
         self.emit(self.lay.ws(allow_nl))
@@ -195,7 +208,11 @@ class Renderer(object):
             how = v.how
             if how == "bare" and not is_bare_safe(v.v):
                 how = "dq"
-            if how == "bare":
+            if how in ("raw-dq", "raw-sq"):
+                # written between the quotes as it is (line breaks, tabs, trailing blanks on its lines) when that is possible; with escapes otherwise
+                q = '"' if how == "raw-dq" else "'"
+                self.emit(q + v.v + q if is_raw_safe(v.v, q) else quote(v.v, q))
+            elif how == "bare":
                 self.emit(v.v)
             else:
                 self.emit(quote(v.v, '"' if how == "dq" else "'"))
@@ -260,7 +277,10 @@ class Renderer(object):
                 self.emit(name)
                 self.gap()
                 self.emit("=")
-                self.gap()
+                if self.lay.split_eq:
+                    self.emit(self.lay.after_eq())
+                else:
+                    self.gap()
                 e = self.value(v, None)
                 aparts.append("arg(%s,%d,%s)" % (enc_str(name), al, e))
                 self.gap()
@@ -281,9 +301,24 @@ def canon_scalar(v):
     return "s:" + enc_str(v.v)
 
 
-def render(ast, rng, newline="\n", wild=True, one_line=False):
+def render(ast, rng, newline="\n", wild=True, one_line=False, split_eq=False):
     """returns (source text, expected canonical parse tree with the true lines)"""
-    return Renderer(Layout(rng, newline, wild, one_line)).program(ast)
+    return Renderer(Layout(rng, newline, wild, one_line, split_eq)).program(ast)
+
+
+def multiline_asts(rng, command="Cmd"):
+    """abstract programs whose quoted strings are written over several file lines (MULTILINE_POOL): as an argument, as list items (also nested), as tuple values,
+    several in one command and in consecutive commands, next to numbers and plain words"""
+    def s(text=None):
+        return Val("str", rng.choice(MULTILINE_POOL) if text is None else text, rng.choice(["raw-dq", "raw-sq"]))
+    out = []
+    for k, text in enumerate(MULTILINE_POOL):
+        out.append([("S%d" % k, command, [("Text", s(text))]), ("After%d" % k, command, [("P", Val("int", k))])])
+        out.append([("L%d" % k, command, [("Items", Val("list", [s(text), s(), Val("list", [s(text), Val("int", 1)]), Val("str", "plain", "bare")])), ("Q", Val("float", 0.5))])])
+        out.append([("T%d" % k, command, [("Text", Val("str", "x", "dq")), ("Metadata", Val("dict", [("Description", s(text)), ("Units", s()), ("k", Val("str", "v", "bare"))]))])])
+    for k in range(6):
+        out.append([("M%d_%d" % (k, i), command, [("Text", s()), ("Items", Val("list", [s() for _ in range(rng.randrange(0, 4))])), ("Other", s())][:rng.randrange(1, 4)]) for i in range(rng.randrange(1, 4))])
+    return out
 
 
 # ---------------------------------------------------------------- numbers of equal value and different kind, side by side
